@@ -588,6 +588,11 @@ def _m_len(I, args, kwargs, node):
         return len(v)
     if isinstance(v, SList):
         return SInt(v.len)
+    if isinstance(v, SStr):
+        from .opaque import ufun
+        n = ufun("str.len", z3.IntSort(), z3.IntSort())(v.t)
+        I.ctx.assume(z3.And(n >= 0, (n == 0) == (v.t == intern(""))))
+        return SInt(n)
     h = getattr(v, "length", None)
     if h is not None:
         return h(I)
@@ -659,6 +664,9 @@ def _m_range(I, args, kwargs, node):
 def _m_list(I, args, kwargs, node):
     if not args:
         return []
+    if isinstance(args[0], SOpaque):
+        from .opaque import ufun, U
+        return SOpaque(ufun("U!list", U(), U())(args[0].t), "any")
     v = I.iterable(args[0], node)
     if isinstance(v, (list, tuple)):
         return list(v)
